@@ -65,6 +65,9 @@ type Config struct {
 	BudgetW int    `json:"workload_budget"`
 	BudgetF int    `json:"fault_budget"`
 	BudgetD int    `json:"down_budget"`
+	// BudgetK: single failing scrapes ("flaky(h)") allowed on top of the other budgets (a transient scrape
+	// failure is ordinary operation, not one of the listed faults)
+	BudgetK int `json:"flaky_budget,omitempty"`
 	// DownAsFault: "a target goes down for good" is one of the faults (consumes the fault budget)
 	DownAsFault bool `json:"down_as_fault,omitempty"`
 	// MoreFaults adds "wipe(i)" (shard restarted on an empty volume) and "flaky(h)" (one failing scrape) to the fault menu
@@ -144,6 +147,7 @@ type World struct {
 	BudgetW int
 	BudgetF int
 	BudgetD int
+	BudgetK int
 	// ghost bookkeeping of the harness, independent of the sidecars' own counters: completed scrapes of
 	// target h by shard i since it was assigned there / since its move began, and "a move began here"
 	since    []map[uint64]int
@@ -176,7 +180,7 @@ func cfgInfo() *prom.ConfigInfo {
 func New(cfg *Config, base string) *World {
 	os.RemoveAll(base)
 	os.MkdirAll(base, 0o755)
-	w := &World{Cfg: cfg, base: base, now: start, T: map[uint64]*T{}, BudgetW: cfg.BudgetW, BudgetF: cfg.BudgetF, BudgetD: cfg.BudgetD}
+	w := &World{Cfg: cfg, base: base, now: start, T: map[uint64]*T{}, BudgetW: cfg.BudgetW, BudgetF: cfg.BudgetF, BudgetD: cfg.BudgetD, BudgetK: cfg.BudgetK}
 	vrt.SetClock(w.now)
 	sidecar.VerifSetTimeNow(func() time.Time { return w.now })
 	for i := range cfg.Targets {
